@@ -48,22 +48,27 @@ func (t *peTicker) Stop()                  { atomic.StoreInt32(&t.stopped, 1) }
 
 // ---------------------------------------------------------------- containers
 
-// peCont is a user-supplied TaskContainer with a count threshold (PeriodicalExecutor is a public
-// extension point: this is what a user of the package writes).
+// peCont is a user-supplied TaskContainer with a weight threshold (PeriodicalExecutor is a public
+// extension point: this is what a user of the package writes). Every task weighs 10 unless the
+// schedule says otherwise, so the threshold is a count threshold by default.
 type peCont struct {
-	tasks []int
-	thr   int
-	exec  func([]int)
+	tasks  []int
+	thr    int
+	sum    int
+	weight func(int) int
+	exec   func([]int)
 }
 
 func (c *peCont) AddTask(task any) bool {
 	c.tasks = append(c.tasks, task.(int))
-	return len(c.tasks) >= c.thr
+	c.sum += c.weight(task.(int))
+	return c.sum >= c.thr*10
 }
 func (c *peCont) Execute(tasks any) { c.exec(tasks.([]int)) }
 func (c *peCont) RemoveAll() any {
 	t := c.tasks
 	c.tasks = nil
+	c.sum = 0
 	return t
 }
 
@@ -161,7 +166,7 @@ func newPEDriver(t *testing.T, em *verifEmitter, kind string, thr int) *peDriver
 	execAny := func(tasks []any) { d.exec(peInts(tasks)) }
 	switch kind {
 	case "pe":
-		c := &peCont{thr: thr, exec: d.exec}
+		c := &peCont{thr: thr, exec: d.exec, weight: func(t int) int { return d.sizeOf(t) }}
 		pe := NewPeriodicalExecutor(peInterval, &peWrap{inner: c, d: d})
 		d.pe = pe
 		d.add = func(t int) { pe.Add(t) }
@@ -307,6 +312,7 @@ func (d *peDriver) call(p int, o peOp) {
 	ev := verifEv{"p": p}
 	if o.op == "add" {
 		ev["t"] = o.t
+		ev["z"] = d.sizeOf(o.t) // informative: the property does not depend on the size a task is added with
 	}
 	st := verifEv{"e": o.op + "Start"}
 	en := verifEv{"e": o.op + "End"}
@@ -493,6 +499,7 @@ type peStep struct {
 	Op    string `json:"op"`
 	P     int    `json:"p"`
 	T     int    `json:"t"`
+	Z     *int   `json:"z"` // size the task is added with, in units of a tenth of the threshold unit (absent: 1)
 	Ts    []int  `json:"ts"`
 	Panic bool   `json:"panic"`
 }
@@ -516,6 +523,20 @@ func peRunSchedule(t *testing.T, em *verifEmitter, kind string, thr int, steps [
 	d.install()
 	em.Emit(verifEv{"e": "reset", "kind": kind, "thr": thr, "mode": "replay"})
 	lastAdd := map[int]int{}
+	// sizes the schedule gives to its tasks (ChunkExecutor.Add(task, size), weight in the user container);
+	// fixed before any call is made, read-only afterwards
+	sizes := map[int]int{}
+	for _, s := range steps {
+		if s.Op == "add" && s.Z != nil {
+			sizes[s.T] = *s.Z * 10
+		}
+	}
+	d.sizeOf = func(t int) int {
+		if z, ok := sizes[t]; ok {
+			return z
+		}
+		return 10
+	}
 	for _, s := range steps {
 		switch s.Op {
 		case "add":
@@ -618,8 +639,15 @@ func TestVerifPEStress(t *testing.T) {
 		if r%5 < 2 {
 			d.panicEvery = 3 + rnd.Intn(5)
 		}
-		if kind == "chunk" {
+		// sizes: ChunkExecutor.Add takes any int. Per round of three runs: positive sizes; sizes with many
+		// zeros (tasks that never move the accumulated size); sizes that cancel each other out
+		switch szMode := (r / 3) % 3; {
+		case kind == "chunk" && szMode == 0:
 			d.sizeOf = func(t int) int { return 3 + (t*7)%13 }
+		case kind != "bulk" && szMode == 1:
+			d.sizeOf = func(t int) int { return []int{0, 0, 7, 0, 13, 0, 0, 3}[t%8] }
+		case kind != "bulk" && szMode == 2:
+			d.sizeOf = func(t int) int { return []int{0, -4, 4, 9, -9, 0, 6, -6, 0}[t%9] }
 		}
 		seeds := make([]int64, np+2)
 		for i := range seeds {
